@@ -6093,6 +6093,15 @@ class Path(Shape, MutableSequence):
             return previous_control.reflected_across(start_pos)
         return start_pos
 
+    def _smooth_point_of(self, curve_type):
+        """Smoothing control point for a smooth command of the given curve type.
+        Only a preceding curve of the same type has its control point reflected,
+        in every other case the control point is coincident with the current point.
+        """
+        if len(self._segments) != 0 and isinstance(self._segments[-1], curve_type):
+            return self.smooth_point
+        return self.current_point
+
     def start(self):
         pass
 
@@ -6165,7 +6174,7 @@ class Path(Shape, MutableSequence):
         the second control point in the previous path."""
         for index in range(len(points)):
             start_pos = self.current_point
-            control1 = self.smooth_point
+            control1 = self._smooth_point_of(QuadraticBezier)
             end_pos = points[index]
             if end_pos in ("z", "Z"):
                 end_pos = self.z_point
@@ -6203,7 +6212,7 @@ class Path(Shape, MutableSequence):
         the second control point in the previous path."""
         for index in range(0, len(points), 2):
             start_pos = self.current_point
-            control1 = self.smooth_point
+            control1 = self._smooth_point_of(CubicBezier)
             control2 = points[index]
 
             if control2 in ("z", "Z"):
